@@ -35,7 +35,7 @@ ASSUMPTIONS = ["'in-between' cases (needed side present, other side missing) may
 REQUIRED = ["C13:valuation-raises-when-missing", "C13:valuation-ok-when-flat", "C13:rebalance-raises-when-missing",
             "C13:rebalance-ok-when-quoted", "C13:atomic-on-failure", "C13:failpoint-atomic", "C13:episode-atomic",
             "C13:episode-fault-raises", "C13:episode-raises-only-when-needed"]
-REQUIRED_CATS = ["measure:weight", "measure:nr-contracts", "closed-with-float-residual", "episode-fault-latent", "episode-1", "episode-quotes-from-table"]
+REQUIRED_CATS = ["measure:weight", "measure:nr-contracts", "closed-with-float-residual", "episode-fault-latent", "episode-1", "episode-quotes-from-table", "request-previewed-before-faults"]
 REQUIRED_HITS = ["Broker.transact", "Broker.rebalance", "Rebalancing.make_trades"]
 TECHNIQUE = "runtime monitoring with fault injection: enumerated quote faults and sys.monitoring failpoints, atomicity asserted via the Broker.transact hook"
 LEVEL_TEXT = ("Fault enumeration. All single-contract fault kinds x position x target combinations are enumerated against the real "
@@ -79,7 +79,7 @@ def apply_fault(ex, t, c, f, q):
             ex.process_EventNBBO(EventNBBO(t, c, 50.0, 51.0))
 
 
-def judge(ctx, b, ex, cs, q, tgt, t, label, intended=None):
+def judge(ctx, b, ex, cs, q, tgt, t, label, intended=None, request=None):
     """Valuation and rebalance oracles on the broker `b` whose true quotes are q.
     `intended` = the positions the harness built (sum of its trades, dust = flat)."""
     pos = b.holdings_quantity
@@ -116,12 +116,14 @@ def judge(ctx, b, ex, cs, q, tgt, t, label, intended=None):
             ctx.check("C13:no-nan-value", not any(isinstance(x, float) and math.isnan(x) for x in vals), entry=name)
     keys = list(tgt)
     measure = "weight"
-    if ctx.rng.random() < 0.4 and not must_raise:
+    if request is None and ctx.rng.random() < 0.4 and not must_raise:
         # contract-count targets: the imbalance (and so the side needed) is known without prices
         measure = "nr-contracts"
         tgt = {c: (0 if w == 0 else pos.get(c, 0.0) + ctx.rng.choice([-1, 1]) * ctx.rng.uniform(0.5, 3)) for c, w in tgt.items()}
     ctx.cat("measure:" + measure)
     r = Rebalancing(keys, [tgt[k] for k in keys], measure=measure, time=t + timedelta(days=1))
+    if request is not None:
+        r = request         # built (and previewed) by the caller BEFORE the quotes were lost
 
     def both(c):
         return not math.isnan(q[c][0]) and not math.isnan(q[c][1])
@@ -344,16 +346,26 @@ def case(ctx, i, tier):
             else:
                 intended[c] = rng.choice([-1, 1]) * rng.uniform(1, 5)
                 b.transact(Trade(t, c, intended[c], *q[c]))
+    tgt = {c: rng.choice([0, 0, rng.uniform(-0.3, 0.3)]) for c in cs if rng.random() < 0.8}
+    request = None
+    if rng.random() < 0.3:
+        # the request is built, and its trades previewed, while every quote is still there; the quotes are lost
+        # afterwards and the SAME request object is then handed to the broker
+        request = Rebalancing(list(tgt), [tgt[k] for k in tgt], time=t + timedelta(days=1))
+        try:
+            request.make_trades(b)
+        except Exception:
+            pass
+        ctx.cat("request-previewed-before-faults")
     faults = {}
     for c in cs:
         f = rng.choice(["none", "none", "bidnan", "asknan", "bothnan", "disc", "disc+requote"])
         faults[c] = "never" if c in never else f
         apply_fault(ex, t, c, f, q)
         ctx.cat("fault:" + faults[c])
-    tgt = {c: rng.choice([0, 0, rng.uniform(-0.3, 0.3)]) for c in cs if rng.random() < 0.8}
     pos = dict(b.holdings_quantity)
     pos.update(intended)
-    judge(ctx, b, ex, cs, q, tgt, t, label="random", intended=intended)
+    judge(ctx, b, ex, cs, q, tgt, t, label="random", intended=intended, request=request)
     ctx.nontrivial = any(f != "none" and (pos.get(c, 0.0) != 0 or tgt.get(c, 0) != 0) for c, f in faults.items())
     ctx.sample = {"contracts": [c.symbol for c in cs], "faults": {c.symbol: f for c, f in faults.items()},
                   "positions": {c.symbol: pos.get(c, 0.0) for c in cs}, "targets": {c.symbol: v for c, v in tgt.items()}}
